@@ -40,8 +40,10 @@ def explains(entry, prop, failure, case):
         return False
     m = entry.get("match", {})
     fam = m.get("family")
-    if fam is not None and not str(failure.get("family", "")).startswith(fam):
-        return False
+    if fam is not None:
+        fams = fam if isinstance(fam, list) else [fam]
+        if not any(str(failure.get("family", "")).startswith(x) for x in fams):
+            return False
     kind = m.get("kind")
     if kind is not None:
         kinds = kind if isinstance(kind, list) else [kind]
